@@ -23,6 +23,18 @@ CHECKS = {
  "C06": dict(level="other", technique="abstract interpretation + term normalisation of the generated hash body + exhaustive table comparison",
    text="Every path of the Hash body builder is reduced to the ordered list of Hash::hash(input, state) statements; the input of each non-ignored field (field, key from hash/eq/ord, or hash-by call) and the absence of statements for ignored fields are compared with the documented rule on all 2^20 attribute states, for struct and enum roles.",
    note="Hash impls of field types are deterministic (assumption). Byte-identity of feeds is a consequence, not evaluated.", ref="5 C06"),
+ "C07": dict(level="other", technique="abstract expansion of the Clone builders printed schematically and read back as terms (helper inlining, binder resolution); field-wise reference",
+   text="The Clone builders (struct and enum roles) are evaluated on a symbolic item; the generated impl is printed for two schematic fields/variants and normalised to terms: `clone` rebuilds the same struct/variant with field k = one Clone::clone(&field k) of field k's own type under field k's own name; struct `clone_from` is one clone_from(&mut self.k, &source.k) per field and no clone; enum `clone_from` pairs each variant with itself, then replaces *self by a clone of the source; the field entries are shown to be the in-order enumeration of the very `Fields` the constructor names come from.",
+   note="Call counts at run time beyond one call expression per field per path are not decided; field types' Clone impls are arbitrary.", ref="5 C07"),
+ "C08": dict(level="other", technique="abstract expansion of the three operator builders for all 22 operators and all owned/reference forms; operand-root / reference-flag reference; name tables vs core::ops",
+   text="For all 10 binary operators, their 10 assign forms and Neg/Not the expansion is one impl per form of [false,true]^2 (binary) / [false,true] (assign, unary), none twice; in each, field k is one call `<[&]Tk as Trait<[&]Tk>>::method([&]self.k, [&]rhs.k)` with the left operand first and `&` exactly as the form says in header, UFCS types, operands and where-predicates (assign: `&mut self.k`); from_str/to_str/to_func_name/`Assign` suffix are mutually consistent and equal the core::ops table.",
+   note="core::ops names are language constants. Operator semantics of field types are not evaluated.", ref="5 C08"),
+ "C10": dict(level="other", technique="abstract expansion of the Debug builders with two unrolled fields (all ignore/transparent combinations) read back as method-chain terms",
+   text="With the field list unrolled to two distinct symbolic fields, every combination of ignore/transparent marks is a path: >= 2 transparent marks are refused and only they; otherwise the body is the builder chain on the formatter parameter debug_struct (named) / debug_tuple (otherwise)(stringify!(name)).field([stringify!(field),] &place) for exactly the non-ignored fields in order .finish(), or exactly Debug::fmt(field, f) for the transparent field; enums: one arm per variant in order.",
+   note="core::fmt's builders are trusted to print what the std derive prints for the same calls.", ref="5 C10"),
+ "C18": dict(level="other", technique="abstract interpretation of the Deref builder for arities 0..3 + term check of the borrow",
+   text="The Deref/DerefMut builder is evaluated with 0, 1, 2 and 3 fields: all paths of arity 1 succeed, all paths of the other arities end in a derive_ex error (no panic path); `Target` is the field's declared type and the body is `&self.f` / `&mut self.f`, a borrow of the field place itself.",
+   note="Address identity of a place borrow is language semantics.", ref="5 C18"),
  "C17": dict(level="other", technique="abstract interpretation + obligation extraction from the generated checker function",
    text="On every path of the Eq body builder the generated checker contains, per compared field, one call of a local function whose type parameter is bounded by Eq on the field or on its key; nothing is generated exactly for ignored and by-compared fields (compared with the reference on all 2^20 states); the checker is emitted as a function item next to the impl so that rustc type-checks it.",
    note="Relies on rustc rejecting the Eq-bounded call for non-Eq types (language semantics).", ref="5 C17"),
